@@ -3,6 +3,7 @@
 usage: tools/baseline.py [repo_dir]   -> exit 0 iff every stable_pass test passes."""
 import json, os, subprocess, sys, tempfile, xml.etree.ElementTree as ET
 repo = sys.argv[1] if len(sys.argv) > 1 else "/repo"
+os.environ["PYTHONPATH"] = os.path.join(repo, "src")
 base = json.load(open("/root/.vp/BASELINE.json"))
 out = tempfile.mktemp(suffix=".xml", dir="/var/tmp")
 env = {k: v for k, v in os.environ.items() if not k.startswith("SCHEMATHESIS_VERIF")}
